@@ -200,6 +200,20 @@ def check(ctx):
                    f"`{name}` at {e.where} is switched off unless an "
                    f"unrelated option is given", key=f"C15.2:{name}:alone",
                    live=fmt(e.live))
+            # ... and none can switch it off: the property quantifies over
+            # all 2^k option combinations
+            # (--merge is refused for index-based input by evo_traj itself,
+            # so it is left open unless it is the step's own option)
+            every = {o: True for o in all_opts
+                     if o != "merge" or o in opts}
+            together = _fold_opts(e.live, every, None)
+            ctx.ob("C15.2", e, together is not False,
+                   f"`{name}` also runs when every other processing option "
+                   f"is given as well" if together is not False else
+                   f"`{name}` at {e.where} is skipped when other processing "
+                   f"options are given too ({fmt(e.live)[:100]}): a "
+                   f"requested step is silently not applied",
+                   key=f"C15.2:{name}:with-others", live=fmt(e.live))
     # nothing mutating without options
     for name in OPTION_OF:
         for e in step_events[name]:
